@@ -390,6 +390,7 @@ func NewPool(k Kind, a signal.Allocator) DynPool {
 
 // DynSlice is a caller-side []T.
 type DynSlice interface {
+	Prefix(n int) DynSlice
 	Len() int
 	Get(i int) uint64
 	Any() any
@@ -398,16 +399,20 @@ type DynSlice interface {
 }
 
 type SL[T signal.SignalTypes] struct {
-	s []T
-	k Kind
+	s     []T
+	k     Kind
+	alias bool // a prefix of another caller slice (same backing array): the "spare" elements are the other's samples
 }
+
+// Prefix returns s[:n] of the SAME backing array (two rows of a striped call may alias each other)
+func (x *SL[T]) Prefix(n int) DynSlice { return &SL[T]{s: x.s[:n], k: x.k, alias: true} }
 
 // every caller slice has spareCap elements of capacity behind its length, holding a sentinel: the
 // library must not touch the caller's backing array beyond the slice it was given
 const spareCap = 3
 
 func (x *SL[T]) SpareIntact() bool {
-	if x.s == nil {
+	if x.s == nil || x.alias {
 		return true
 	}
 	full := x.s[:cap(x.s)]
@@ -426,7 +431,7 @@ func (x *SL[T]) IsNil() bool      { return x.s == nil }
 
 func sliceT[T signal.SignalTypes](vals []uint64, isNil bool, k Kind) DynSlice {
 	if isNil {
-		return &SL[T]{nil, k}
+		return &SL[T]{s: nil, k: k}
 	}
 	back := make([]T, len(vals)+spareCap)
 	for i, v := range vals {
@@ -435,7 +440,7 @@ func sliceT[T signal.SignalTypes](vals []uint64, isNil bool, k Kind) DynSlice {
 	for i := len(vals); i < len(back); i++ {
 		back[i] = dec[T](small(k, 99), k)
 	}
-	return &SL[T]{back[:len(vals)], k}
+	return &SL[T]{s: back[:len(vals)], k: k}
 }
 
 func NewSlice(k Kind, vals []uint64, isNil bool) DynSlice {
@@ -471,10 +476,16 @@ func NewSlice(k Kind, vals []uint64, isNil bool) DynSlice {
 }
 
 // striped helper: [][]T from DynSlices of one kind
+// the slice of rows handed to the striped reader / writer has two more rows of capacity behind its length (a caller's
+// `rows[:n]`): the number of rows is len, not cap, and the rows behind it are not the library's to touch
 func stripedT[T signal.SignalTypes](cols []DynSlice) [][]T {
-	out := make([][]T, len(cols))
+	out := make([][]T, len(cols), len(cols)+2)
 	for i, c := range cols {
 		out[i] = c.(*SL[T]).s
+	}
+	full := out[:cap(out)]
+	for i := len(cols); i < len(full); i++ {
+		full[i] = make([]T, 6)
 	}
 	return out
 }
